@@ -186,4 +186,48 @@ theorem interpFrom_right_node {a b : K × K} : ∀ (x0 y0 : K) (l : List (K × K
       simp only [this, if_false]
       exact interpFrom_right_node x1 y1 l h3 hn
 
+/-- walking the exchanged table at the value of the walk returns the query point (strictly increasing table,
+    query between the left node and the last abscissa) -/
+theorem interpFrom_inverse (x : K) : ∀ (x0 y0 : K) (l : List (K × K)), StrictInc (x0, y0) l → x0 ≤ x →
+    x ≤ (lastNode (x0, y0) l).1 → interpFrom (interpFrom x x0 y0 l) y0 x0 (swapNodes l) = x
+  | x0, y0, [], _, hx, hl => by
+    simp only [lastNode] at hl
+    simp only [interpFrom, swapNodes, List.map_nil]; exact le_antisymm hx hl
+  | x0, y0, (x1, y1) :: l, ⟨h1, h2, h3⟩, hx, hl => by
+    simp only [lastNode] at hl
+    simp only [interpFrom, swapNodes, List.map_cons]
+    by_cases ha : x < x1
+    · simp only [ha, if_true]
+      have hv : y0 + (x - x0) / (x1 - x0) * (y1 - y0) < y1 := by
+        have := piece_strictMono (x := x) (x' := x1) h1 h2 ha
+        rwa [piece_right h1] at this
+      simp only [hv, if_true]
+      have hd : x1 - x0 ≠ 0 := (sub_pos.mpr h1).ne'
+      have hdy : y1 - y0 ≠ 0 := (sub_pos.mpr h2).ne'
+      field_simp; ring
+    · simp only [ha, if_false]
+      have hv : ¬ interpFrom x x1 y1 l < y1 := not_lt.mpr (interpFrom_ge x x1 y1 l h3.inc (not_lt.mp ha))
+      simp only [hv, if_false]
+      exact interpFrom_inverse x x1 y1 l h3 (not_lt.mp ha) hl
+
+/-- adding a constant to every ordinate adds it to the walk -/
+theorem interpFrom_shift (c x : K) : ∀ (x0 y0 : K) (l : List (K × K)),
+    interpFrom x x0 (y0 + c) (l.map fun p => (p.1, p.2 + c)) = interpFrom x x0 y0 l + c
+  | _, _, [] => rfl
+  | x0, y0, (x1, y1) :: l => by
+    simp only [interpFrom, List.map_cons]
+    split
+    · ring
+    · exact interpFrom_shift c x x1 y1 l
+
+theorem StrictInc.shift (c : K) : ∀ {a : K × K} {l : List (K × K)}, StrictInc a l →
+    StrictInc (a.1, a.2 + c) (l.map fun p => (p.1, p.2 + c))
+  | _, [], _ => trivial
+  | _, _ :: _, ⟨h1, h2, h3⟩ => ⟨h1, by simpa using h2, StrictInc.shift c h3⟩
+
+theorem lastNode_shift (c : K) : ∀ (a : K × K) (l : List (K × K)),
+    (lastNode (a.1, a.2 + c) (l.map fun p => (p.1, p.2 + c))).1 = (lastNode a l).1
+  | _, [] => rfl
+  | _, b :: l => by simp only [List.map_cons, lastNode]; exact lastNode_shift c b l
+
 end NiftyVerif.Priors
